@@ -227,6 +227,25 @@ fn parse_out(text : &str) -> Value
     }
 }
 
+/*  parse_all over two files: the error must name the file it is in */
+fn parse_all_record(id : String, t1 : &str, t2 : &str) -> Value
+{
+    let (a, b) = (t1.to_string(), t2.to_string());
+    let out = match std::panic::catch_unwind(move || crate::rule::parse_all(vec![("one.rules".to_string(), a), ("two.rules".to_string(), b)]))
+    {
+        Err(_) => json!({"res" : "panic"}),
+        Ok(Ok(rules)) => json!({"res" : "ok", "rules" : rules.iter().map(|r| json!({"tg" : r.targets, "src" : r.sources, "cmd" : r.command})).collect::<Vec<_>>()}),
+        Ok(Err(e)) =>
+        {
+            use crate::rule::ParseError as P;
+            let file = match &e { P::UnexpectedEmptyLine(f, _) | P::UnexpectedExtraColon(f, _) | P::UnexpectedEndOfFileMidTargets(f, _) | P::UnexpectedEndOfFileMidSources(f, _) | P::UnexpectedEndOfFileMidCommand(f, _) | P::BundleError(f, _) => f.clone() };
+            let single = parse_out(if file == "one.rules" { t1 } else { t2 });
+            json!({"res" : "err", "file" : file, "kind" : single["kind"], "line" : single["line"], "single_res" : single["res"]})
+        },
+    };
+    json!({"id" : id, "multi" : true, "lines1" : lex(t1), "lines2" : lex(t2), "lines" : [], "out" : out})
+}
+
 fn parse_record(id : String, text : &str, variant : Option<String>) -> Value
 {
     let mut rec = json!({"id" : id, "lines" : lex(text), "out" : parse_out(text)});
@@ -303,6 +322,13 @@ pub fn parse_cases(maxlen : usize, random : usize, seed : u64) -> Vec<Value>
         }
         if rng.chance(1, 2) && text.ends_with('\n') { text.pop(); ptext.pop(); }
         out.push(parse_record(format!("w{}.{}", seed, r), &text, Some(ptext)));
+        {   /* the same text split over two files at a random line, and a corrupted half */
+            let all : Vec<&str> = text.split('\n').collect();
+            let cut = rng.below(all.len() + 1);
+            let (t1, t2) = (all[..cut].join("\n"), all[cut..].join("\n"));
+            out.push(parse_all_record(format!("m{}.{}", seed, r), &t1, &t2));
+            out.push(parse_all_record(format!("n{}.{}", seed, r), &t2, &format!(":\n{}", t1)));
+        }
         /* single-edit corruptions */
         let lines : Vec<&str> = text.split('\n').collect();
         for c in 0..4
